@@ -116,6 +116,37 @@ class OpSummary:
         s = self.side_of(a)
         return s
 
+    def resolve_gated(self, t, env, depth=0):
+        """follow gated merges whose condition is decided by env"""
+        while t[0] == 'phi' and depth < 8:
+            g = self.e.phi_gate.get(t)
+            if g is None: break
+            c = self.evalflag(g[0], env)
+            if c is None: break
+            t = g[1] if c else g[2]; depth += 1
+        return t
+
+    def cell_origin(self, a, env=None):
+        """where a by-value cell argument comes from: ('cur', side) = the current cell of a cursor
+        taken out of its Option, ('consumed', side) = the cell returned by the consume helper"""
+        src = a
+        for ev in self.evs:
+            if ev.ret == a and ev.callee and strip_generics(ev.callee).endswith("Option::unwrap"):
+                src = ev.args[0]
+        if env is not None: src = self.resolve_gated(src, env)
+        for ev in self.evs:
+            if ev.ret == src and plain(ev.callee) in (CONSP, CONS): return ("consumed", self.iter_side(ev.args[1]))
+        s = self.side_of(src)
+        if s is None and src[0] == 'phi':
+            # the cursor variable itself (an Option<Cell> merge)
+            k = src[1]
+            try:
+                l = k[1][1]
+                for sd, ls in self.cell_local.items():
+                    if l in ls: s = sd
+            except Exception: pass
+        return ("cur", s)
+
     # -- regions -----------------------------------------------------------------------------------
     def region(self, facts):
         """semantic relation between L and R established at a site, or a drain loop, or None"""
@@ -173,7 +204,7 @@ class OpSummary:
             a, b = self.evalflag(t[3], env, depth + 1), self.evalflag(t[4], env, depth + 1)
             if a is None or b is None: return None
             return (a and b) if t[1] == 'bitand' else (a or b)
-        if 'ov' in env and t[0] == 'sym': return env['ov']
+        if 'ov' in env and t[0] == 'sym' and t[1] and t[1][0] == 'havoc': return env['ov']
         return None
 
     def feasible(self, facts, env):
@@ -198,7 +229,7 @@ class OpSummary:
         if n == NEXT: return ("adv", self.iter_side(ev.args[0]))
         if n == CONS: return ("consume", self.cell_side(ev.args[0]), self.iter_side(ev.args[1]))
         if n == CONSP: return ("consume_partial", self.cell_side(ev.args[0]), self.iter_side(ev.args[1]))
-        if n == DOR: return ("delegate_or", self.cell_side(ev.args[1]), self.iter_side(ev.args[3]))
+        if n == DOR: return ("delegate_or", self.cell_side(ev.args[1]), self.cell_origin(ev.args[2], env), self.iter_side(ev.args[3]))
         if n == DXOR: return ("delegate_xor", self.cell_side(ev.args[1]), self.cell_side(ev.args[2]), self.iter_side(ev.args[3]))
         return None
 
@@ -246,10 +277,15 @@ def expected(op, region, lf, rf, ov):
         if op == "and":
             E += [("push", small, lf and rf), ("adv", small)]
         elif op == "or":
+            sf = rf if big == "L" else lf        # flag of the current CONTAINED cell
             if bf: E += [("push", big, True), ("consume", big, small), ("adv", big)]
+            elif sf:
+                # max(partial, full) = full on the contained cell: it must be re-emitted full inside
+                # the partial container (delegation starting at the current contained cell)
+                E += [("delegate_or", big, ("cur", small), small), ("adv", big)]
             else:
                 E += [("consume_partial", big, small), ("adv", big)]
-                E.append(("delegate_or", big, small) if ov else ("push", big, False))
+                E.append(("delegate_or", big, ("consumed", small), small) if ov else ("push", big, False))
         elif op == "xor":
             if bf: E += [("delegate_xor", big, small, small), ("adv", big)]
             else: E += [("push", big, False), ("consume", big, small), ("adv", big)]
